@@ -778,6 +778,7 @@ func (h cachedHistogram) ValueBucket(
 	)
 
 	return reportSamplesFunc(func(value int64) {
+		m := m // n.b. copy: one handle may be used from several goroutines.
 		m.Value.Count = value
 		rep.reportCopyMetric(m, size, bucket, bucketID)
 	})
@@ -809,6 +810,7 @@ func (h cachedHistogram) DurationBucket(
 	)
 
 	return reportSamplesFunc(func(value int64) {
+		m := m // n.b. copy: one handle may be used from several goroutines.
 		m.Value.Count = value
 		rep.reportCopyMetric(m, size, bucket, bucketID)
 	})
